@@ -34,7 +34,7 @@ def gen_continuum(ch, *, min_annot=2, max_annot=4, max_units=7, labelset="alpha"
     n_annot = ch.randint(min_annot, max_annot)
     names = ANNOTATOR_NAMES[:n_annot]
     fam = ch.weighted(families or [("jitter", 5), ("random", 3), ("grid", 3), ("identical", 1),
-                                   ("nested", 1), ("staircase", 1), ("sparse", 1)])
+                                   ("nested", 1), ("staircase", 1), ("staircase_shared", 1), ("sparse", 1)])
     units = {n: [] for n in names}
 
     def lab():
@@ -100,6 +100,18 @@ def gen_continuum(ch, *, min_annot=2, max_annot=4, max_units=7, labelset="alpha"
             for j in range(ch.randint(1, max_units)):
                 s = j * step + i * step / len(names)
                 units[n].append([r3(s), r3(s + length), lab()])
+    elif fam == "staircase_shared":
+        # overlapping staircase; annotator i starts i whole steps later, so neighbouring annotators hold
+        # IDENTICAL units (same segment and label) that the optimum pairs crosswise, not with each other
+        step = float(ch.randint(2, 6))
+        length = step * ch.choice([1.5, 2.0, 2.5])
+        k = ch.randint(2, max(2, max_units))
+        labs = [lab() for _ in range(k + n_annot)]
+        same_label = ch.coin(0.6)
+        for i, n in enumerate(names):
+            for j in range(k):
+                s = (i + j) * step
+                units[n].append([r3(s), r3(s + length), labs[0] if same_label else labs[i + j]])
     elif fam == "sparse":
         for n in names:
             for _ in range(ch.randint(0, 2)):
@@ -136,6 +148,30 @@ def gen_continuum(ch, *, min_annot=2, max_annot=4, max_units=7, labelset="alpha"
     return {"annotators": out, "family": fam, "labelset": labelset}
 
 
+def gen_large_continuum(ch, labelset="alpha"):
+    """Long, mildly overlapping continuum (4-5 annotators x 14-32 units) on which the windowed
+    (fast) algorithm is judged advantageous, so that fast-mode gamma really measures and uses a window."""
+    labels = LABEL_SETS[labelset]
+    p = ch.choice([4, 4, 5])
+    n = ch.randint(24, 32) if p == 4 else ch.randint(14, 18)
+    ref = []
+    t = 0.0
+    for _ in range(n):
+        t += ch.uniform(0.5, 3.0)
+        d = ch.uniform(1.0, 4.0)
+        ref.append((t, t + d, ch.choice(labels)))
+        t += d
+    out = []
+    for nm in ANNOTATOR_NAMES[:p]:
+        units = []
+        for (s, e, l) in ref:
+            if ch.coin(0.1):
+                continue
+            units.append([r3(s + ch.uniform(-0.4, 0.4)), r3(e + ch.uniform(-0.4, 0.4)), l if ch.coin(0.8) else ch.choice(labels)])
+        out.append([nm, units])
+    return {"annotators": out, "family": "large_fast", "labelset": labelset}
+
+
 def build_continuum(spec):
     c = pa.Continuum()
     for name, units in spec["annotators"]:
@@ -164,11 +200,12 @@ def continuum_key(c):
 # dissimilarities
 # --------------------------------------------------------------------------
 _DISSIM_CACHE = {}
-_DISSIM_CACHE_MAX = 96
+_DISSIM_CACHE_MAX = 200
 
 
 def gen_dissim(ch, labelset="alpha", *, combined_only=False, kinds=None):
-    de = ch.choice([0.5, 1.0, 1.0, 1.5, 2.0])
+    # dyadic values and values that are not exactly representable in float32 (rounding at the pruning bound)
+    de = ch.choice([0.5, 1.0, 1.0, 1.5, 2.0, 0.1, 0.3, 0.7, 1.1, 1.7])
     if not combined_only and ch.coin(0.3):
         return {"kind": "pos", "delta_empty": de}
     if kinds is None:
@@ -227,8 +264,18 @@ def build_sampler(name):
 
 
 def gen_gamma_scenario(ch, *, max_annot=4, max_units=7, max_samples=10, precisions=(None, None, 0.3, 0.2),
-                       modes=("exact", "exact", "fast", "soft"), combined_only=False):
+                       modes=("exact", "exact", "fast", "soft"), combined_only=False, large_fast=0.0):
     labelset = ch.choice(["alpha", "alpha", "words", "num"])
+    if large_fast and ch.coin(large_fast):
+        cont = gen_large_continuum(ch.sub("cont"), labelset)
+        dis = gen_dissim(ch.sub("dissim"), labelset, combined_only=combined_only)
+        if dis["kind"] == "comb" and dis["alpha"] < 1.0:
+            # with a weak positional part every unit is "reachable" and the first window is the whole continuum:
+            # the exact alignment of 100+ units would take minutes
+            dis["alpha"] = ch.choice([1.0, 3.0])
+        return {"continuum": cont, "dissim": dis,
+                "sampler": ch.choice(["stat", "shuffle_int", "shuffle_float", "default"]), "mode": "fast",
+                "n_samples": ch.randint(2, 4), "precision": None, "gt": None, "np_seed": ch.randint(0, 2**31 - 1)}
     cont = gen_continuum(ch.sub("cont"), max_annot=max_annot, max_units=max_units, labelset=labelset,
                          allow_none_label=False, min_total_units=2)
     names = [n for n, _ in cont["annotators"]]
